@@ -9,6 +9,7 @@
 //! built from it.
 
 mod bed;
+mod foreign;
 mod gff3;
 mod gtf;
 mod model;
@@ -536,6 +537,7 @@ fn main() {
              record/directive/comment lines; bed_grammar: N in 3..=6 x 1..3 records x k deviations incl. 0..9 other fields of every value type. \
              *_reuse: every ordered pair and triple of a presence-spanning line/record set per format read through every reader API (one reused Line/Record clean and pre-dirtied, fresh per read, lines()/line_bufs()/record_bufs()); \
              *_writer_seq: every sequence of <=3 writes on one writer over accepted records and one item per refusal reason, the output must be exactly the accepted lines. \
+             foreign_layouts: every writer-produced document of 1-2 lines (thorough: 3) of the presence-spanning sets re-rendered with one deviation (thorough: all pairs) - CRLF all/one line, no final terminator, white space after the last terminator, empty / white-space-only lines and runs before, between and after, comments, directives, ###, ##FASTA, BED track/browser lines, GTF trailing space - and read through every reader API and buffer mode; rejected layouts are counted, parsed ones must give the canonical records. \
              distinct = distinct written files (observation logs) for E1, accepted (field, shape, byte) cases for E3. \
              Domain (statement): GTF/BED plain columns free of tab/LF/CR; a GTF key is a non-empty token without ASCII white space; GTF column 1 does not start with '#'; \
              records the writer refuses (CDS without phase, GTF strand '?', BED non-printable/empty fields) are counted, not judged.",
@@ -768,6 +770,101 @@ fn main() {
         );
         ctx.add_distinct((gs.len() + ts.len() + 4 * bs.len()) as u64, (gs.len() + ts.len() + 4 * bs.len()) as u64);
 
-        ctx.extra("c18_counters", json!({"gff3_sweeps": gff_counts, "gtf_sweeps": gtf_counts, "bed_sweeps": bed_counts}));
+        // ---- foreign but legal line layouts (readers) ----
+        let fstats = foreign::Stats::default();
+        {
+            use foreign::Fmt;
+            // canonical documents: writer output for every single line and ordered pair (thorough: triples) of the presence-spanning sets
+            let idx = |n: usize| -> Vec<Vec<usize>> {
+                let mut v: Vec<Vec<usize>> = (0..n).map(|a| vec![a]).collect();
+                for a in 0..n {
+                    for b in 0..n {
+                        v.push(vec![a, b]);
+                        if !quick {
+                            for c in 0..n {
+                                v.push(vec![a, b, c]);
+                            }
+                        }
+                    }
+                }
+                v
+            };
+            let mut docs: Vec<(Fmt, Vec<u8>, String)> = Vec::new();
+            let gset = seq::gff3_set();
+            for t in idx(gset.len()) {
+                let lines: Vec<MLine> = t.iter().map(|&k| gset[k].clone()).collect();
+                let mut w = noodles_gff::io::Writer::new(Vec::new());
+                for l in &lines {
+                    match l {
+                        MLine::Rec(r) => w.write_record(&gff3::to_noodles(r)),
+                        MLine::Dir(d) => w.write_directive(&d.to_noodles()),
+                        MLine::Comment(c) => w.write_line(&noodles_gff::LineBuf::Comment(c.clone().into())),
+                    }
+                    .expect("set lines are accepted");
+                }
+                docs.push((Fmt::Gff3, w.into_inner(), format!("gff3 set lines {t:?}")));
+            }
+            let tset = seq::gtf_set();
+            for t in idx(tset.len()) {
+                let mut w = noodles_gtf::io::Writer::new(Vec::new());
+                for &k in &t {
+                    match &tset[k] {
+                        TLine::Rec(r) => w.write_record(&gff3::to_noodles(r)),
+                        TLine::Comment(c) => w.write_line(&noodles_gtf::LineBuf::Comment(c.clone().into())),
+                    }
+                    .expect("set lines are accepted");
+                }
+                docs.push((Fmt::Gtf, w.into_inner(), format!("gtf set lines {t:?}")));
+            }
+            for n in 3..=6 {
+                let set = bed::reuse_set(n);
+                for t in idx(set.len()) {
+                    let items: Vec<bed::WItem> = t.iter().map(|&k| bed::WItem::Rec(set[k].clone(), None)).collect();
+                    docs.push((Fmt::Bed(n), bed::writer_seq(n, &items).bytes, format!("BED{n} set records {t:?}")));
+                }
+            }
+            // cases: (document, deviation) in quick, plus all pairs of deviations in thorough for the 1- and 2-line documents
+            let mut cases: Vec<(usize, usize, Option<usize>)> = Vec::new();
+            let mut devs_of: Vec<Vec<foreign::Dev>> = Vec::new();
+            for (di, (fmt, canon, _)) in docs.iter().enumerate() {
+                let body: Vec<Vec<u8>> = canon.split_inclusive(|&c| c == b'\n').map(|l| l.strip_suffix(b"\n").unwrap_or(l).to_vec()).collect();
+                let ds = foreign::devs(*fmt, &body);
+                for a in 0..ds.len() {
+                    cases.push((di, a, None));
+                    if !quick && body.len() <= 2 {
+                        for b in a + 1..ds.len() {
+                            cases.push((di, a, Some(b)));
+                        }
+                    }
+                }
+                devs_of.push(ds);
+            }
+            ctx.sweep(
+                "foreign_layouts",
+                cases.len() as u64,
+                |i| {
+                    let (di, a, b) = cases[i as usize];
+                    format!("{} deviation {:?} {:?}", docs[di].2, devs_of[di][a], b.map(|b| &devs_of[di][b]))
+                },
+                |i| {
+                    let (di, a, b) = cases[i as usize];
+                    let (fmt, canon, decoded) = &docs[di];
+                    let mut ds = vec![&devs_of[di][a]];
+                    if let Some(b) = b {
+                        ds.push(&devs_of[di][b]);
+                    }
+                    match foreign::check(*fmt, canon, &ds, decoded, &fstats) {
+                        Some(v) => Err(v),
+                        None => Ok(()),
+                    }
+                },
+            );
+            ctx.add_distinct(cases.len() as u64, fstats.reads.load(Relaxed) / 2);
+            if fstats.parsed.load(Relaxed) == 0 || fstats.rejected.load(Relaxed) == 0 {
+                vmc::machinery("C18 vacuity: foreign_layouts never parsed / never saw a rejected layout");
+            }
+        }
+
+        ctx.extra("c18_counters", json!({"foreign_layouts": {"perturbed_reads_that_parsed": fstats.parsed.load(Relaxed), "rejected_by_the_reader(non-judged)": fstats.rejected.load(Relaxed), "panicked(non-judged here)": fstats.panicked.load(Relaxed)}, "gff3_sweeps": gff_counts, "gtf_sweeps": gtf_counts, "bed_sweeps": bed_counts}));
     });
 }
